@@ -279,7 +279,20 @@ def c07_5(ctx):
         elif _is_numeric_zero_test(ex) or any(_is_numeric_zero_test(x) for x in ast.walk(ex) if isinstance(x, (ast.Compare, ast.Call))):
             out.append(ctx.ok(spec, "the final result is decided by the numeric zero test `%s`" % ast.unparse(n.ast), n.ast, mod, key="final-truth"))
         else:
-            out.append(ctx.err(spec, "final truth test `%s` not recognised" % ast.unparse(n.ast), n.ast, mod))
+            # recognised wrong forms: byte-level truthiness of the raw element
+            core = ex.operand if isinstance(ex, ast.UnaryOp) and isinstance(ex.op, ast.Not) else ex
+            raw = lambda e: ast.unparse(e) in ("stack.pop()", "stack[-1]")
+            wrong = None
+            if isinstance(core, ast.Call) and call_name(core) == "any" and core.args and raw(core.args[0]):
+                wrong = "any non-zero byte counts as true, so negative zero (80, 0080, …) is accepted; consensus CastToBool ignores the sign bit of the last byte"
+            elif isinstance(core, ast.Call) and call_name(core) in ("bool", "len") and core.args and raw(core.args[0]):
+                wrong = "any non-empty element counts as true, so 00 and 80 are accepted"
+            elif raw(core):
+                wrong = "any non-empty element counts as true, so 00 and 80 are accepted"
+            if wrong:
+                out.append(ctx.bad(spec, "the final result is decided by `%s`: %s" % (ast.unparse(n.ast), wrong), n.ast, mod, key="final-truth"))
+            else:
+                out.append(ctx.err(spec, "final truth test `%s` not recognised" % ast.unparse(n.ast), n.ast, mod))
     # handlers: conditions over raw slots compared with constants are proven-wrong forms
     m, node, table = table_names(ctx.repo, "op", "OP_CODE_FUNCTIONS")
     for code in (105, 115, 145, 146, 154, 155):
